@@ -348,8 +348,18 @@ def call(q, c, env):
     raise ValueError("call: %r" % (c,))
 
 
-def render(o, dialect, param=False):
-    """top-level rendering of a built statement by its own dialect builder: (sql, values|None)"""
+def render(o, dialect, param=False, **flags):
+    """top-level rendering of a built statement by its own dialect builder: (sql, values|None).
+    flags: non-default SqlContext fields (e.g. as_keyword=True) - then the statement is rendered with the dialect's context
+    carrying them."""
+    if flags:
+        from pypika_tortoise.terms import Parameterizer
+
+        pz = Parameterizer() if param else None
+        ctx = fp.CTX[dialect].copy(**flags)
+        if pz is not None:
+            ctx = ctx.copy(parameterizer=pz)
+        return o.get_sql(ctx), (pz.values if pz is not None else None)
     if param:
         if callable(getattr(type(o), "get_parameterized_sql", None)):
             return o.get_parameterized_sql()
